@@ -8,6 +8,7 @@ import OrsoVerif.Lemmas.IsoSound
 import OrsoVerif.Lemmas.IsoTail
 import OrsoVerif.Lemmas.IsoTimeOfDay
 import OrsoVerif.Lemmas.IsoGrammar
+import OrsoVerif.Generated.IsoDispatch
 /-!
 # C08 — Timestamp parsing round-trips ISO-8601 and epoch forms and is total
 
@@ -49,6 +50,8 @@ example : parseIso (.str "0001-01-01 00:00:00.000000-11:59".toList) = .value ⟨
 example : toEpoch ⟨2024, 2, 29, 23, 59, 58, 0⟩ = 1709251198 := by decide
 example : parseIso (.int 1709251198) = .value ⟨2024, 2, 29, 23, 59, 58, 0⟩ := by decide
 example : parseIso (.int (-62135596800)) = .value ⟨1, 1, 1, 0, 0, 0, 0⟩ := by decide
+example : parseIso (.npInt 0) = .value ⟨1970, 1, 1, 0, 0, 0, 0⟩ ∧ parseIso (.num "bool" 1) = .none ∧
+    parseIso (.num "numpy.int32" 1718530754) = .none ∧ parseIso (.npInt 1718530754) = .value ⟨2024, 6, 16, 9, 39, 14, 0⟩ := by decide
 /-- Boundary by the code's own design: the minute form with a `-HH:MM` suffix is not read. -/
 example : parseIso (.str "2023-04-18T12:34-05:00".toList) = .none := by decide
 example : parseIso (.str "2023-02-29".toList) = .none := by decide
@@ -369,10 +372,10 @@ theorem epoch_utc (dt : DateTime) (h : validDateTime dt = true) :
     (∀ b, floatTrunc b = .fin (toEpoch dt) →
       parseIso (.float b) = .value (truncSeconds dt) ∧ parseIso (.npFloat b) = .value (truncSeconds dt)) := by
   have hf := fromTimestamp_toEpoch dt h
-  have c1 : Gen.Iso.epochTypes.contains "int" = true := by decide
-  have c2 : Gen.Iso.epochTypes.contains "numpy.int64" = true := by decide
-  have c3 : Gen.Iso.epochTypes.contains "float" = true := by decide
-  have c4 : Gen.Iso.epochTypes.contains "numpy.float64" = true := by decide
+  have c1 : Iso.epochAdmits "int" = true := by decide
+  have c2 : Iso.epochAdmits "numpy.int64" = true := by decide
+  have c3 : Iso.epochAdmits "float" = true := by decide
+  have c4 : Iso.epochAdmits "numpy.float64" = true := by decide
   refine ⟨?_, ?_, ?_⟩
   · simp only [parseIso, parseIsoWith, body, epoch, c1, if_true, bind_ok, hf]
   · simp only [parseIso, parseIsoWith, body, epoch, c2, if_true, bind_ok, hf]
@@ -397,10 +400,10 @@ theorem epoch_total (n : Int) :
       parseIso (.int n) = .none ∧ parseIso (.npInt n) = .none ∧
         ∀ b, floatTrunc b = .fin n → parseIso (.float b) = .none ∧ parseIso (.npFloat b) = .none) ∧
     minEpoch = toEpoch ⟨1, 1, 1, 0, 0, 0, 0⟩ ∧ maxEpoch = toEpoch ⟨9999, 12, 31, 23, 59, 59, 0⟩ := by
-  have c1 : Gen.Iso.epochTypes.contains "int" = true := by decide
-  have c2 : Gen.Iso.epochTypes.contains "numpy.int64" = true := by decide
-  have c3 : Gen.Iso.epochTypes.contains "float" = true := by decide
-  have c4 : Gen.Iso.epochTypes.contains "numpy.float64" = true := by decide
+  have c1 : Iso.epochAdmits "int" = true := by decide
+  have c2 : Iso.epochAdmits "numpy.int64" = true := by decide
+  have c3 : Iso.epochAdmits "float" = true := by decide
+  have c4 : Iso.epochAdmits "numpy.float64" = true := by decide
   obtain ⟨hin, hout⟩ := fromTimestamp_spec n
   refine ⟨?_, ?_, by decide, by decide⟩
   · intro hr
@@ -447,6 +450,50 @@ theorem never_raises (i : Input) (e : Exc) : parseIso i ≠ .raises e := by
   | error e' =>
     have := hs e' hb
     simp [this]
+
+/-- **Which numeric classes are read as Unix seconds** (the class table in front of the epoch branch, and the way it is
+consulted, both read from the source on this run — `Gen.Iso.epochTypes`, `Gen.Iso.epochBySubclass`).
+For *every* class name `ty`: the branch is entered **iff** `ty` is exactly `int`, `numpy.int64`, `float` or `numpy.float64`
+— identity of the class, not `isinstance`: `bool` (an `int`), a subclass of `int` / `float`, every other numpy scalar type
+(`numpy.int32`, `numpy.uint64`, `numpy.float32`, `numpy.bool_`), `Decimal`, `Fraction` are *not* admitted.  Consequently an
+instance of an admitted class whose `int(value)` is `n` is read exactly as the `int` `n` (a value inside the range of
+`epoch_total`, None outside), and an instance of any other numeric class yields `None`.
+A table that loses a class (`numpy.int64` when the test becomes `isinstance(value, (int, float))`) or gains one (`bool`)
+fails here, and the correspondence shows the instance. -/
+theorem epoch_classes_are_the_stated_ones :
+    (∀ ty : String, Iso.epochAdmits ty = true ↔ (ty = "int" ∨ ty = "numpy.int64" ∨ ty = "float" ∨ ty = "numpy.float64")) ∧
+    (∀ (ty : String) (n : Int), Iso.epochAdmits ty = true → parseIso (.num ty n) = parseIso (.int n)) ∧
+    (∀ (ty : String) (n : Int), Iso.epochAdmits ty = false → parseIso (.num ty n) = .none) ∧
+    (∀ n : Int, parseIso (.npInt n) = parseIso (.int n)) ∧
+    (∀ b : UInt64, parseIso (.npFloat b) = parseIso (.float b)) ∧
+    (∀ n : Int, parseIso (.num "bool" n) = .none ∧ parseIso (.num "numpy.int32" n) = .none ∧
+      parseIso (.num "numpy.int16" n) = .none ∧ parseIso (.num "numpy.uint64" n) = .none ∧
+      parseIso (.num "numpy.float32" n) = .none ∧ parseIso (.num "numpy.bool" n) = .none ∧
+      parseIso (.num "decimal.Decimal" n) = .none ∧ parseIso (.num "fractions.Fraction" n) = .none ∧
+      parseIso (.num "int subclass" n) = .none ∧ parseIso (.num "float subclass" n) = .none) := by
+  have c1 : Iso.epochAdmits "int" = true := by decide
+  have c2 : Iso.epochAdmits "numpy.int64" = true := by decide
+  have c3 : Iso.epochAdmits "float" = true := by decide
+  have c4 : Iso.epochAdmits "numpy.float64" = true := by decide
+  have hnone : ∀ (ty : String) (n : Int), Iso.epochAdmits ty = false → parseIso (.num ty n) = .none := by
+    intro ty n h
+    simp only [parseIso, parseIsoWith, body, epoch, h, Bool.false_eq_true, if_false]
+  refine ⟨?_, ?_, hnone, ?_, ?_, ?_⟩
+  · intro ty
+    have hs : Gen.Iso.epochBySubclass = false := rfl
+    simp only [Iso.epochAdmits, hs, Bool.false_eq_true, if_false, Gen.Iso.epochTypes, List.contains_cons,
+      List.contains_nil, Bool.or_false, Bool.or_eq_true, beq_iff_eq]
+    -- (the order in which the source lists the classes does not matter)
+    all_goals grind
+  · intro ty n h
+    simp only [parseIso, parseIsoWith, body, epoch, h, c1, if_true]
+  · intro n
+    simp only [parseIso, parseIsoWith, body, epoch, c1, c2, if_true]
+  · intro b
+    simp only [parseIso, parseIsoWith, body, epoch, c3, c4, if_true]
+  · intro n
+    refine ⟨hnone _ n (by decide), hnone _ n (by decide), hnone _ n (by decide), hnone _ n (by decide), hnone _ n (by decide),
+      hnone _ n (by decide), hnone _ n (by decide), hnone _ n (by decide), hnone _ n (by decide), hnone _ n (by decide)⟩
 
 /-- **Every other input yields None**: objects of other types, and text that is not all digits and
 shorter than 10 or longer than 33 characters. -/
@@ -505,7 +552,7 @@ theorem text_value_sound (s : List Char) (dt : DateTime) (h : parseIso (.str s) 
   simp only [parseIso, parseIsoWith, body, strBody, text_branch_refines_skeleton.text] at h
   by_cases hd : isDigitStr s = true
   · rw [if_pos hd] at h
-    have c1 : Gen.Iso.epochTypes.contains "int" = true := by decide
+    have c1 : Iso.epochAdmits "int" = true := by decide
     simp only [epoch, c1, if_true] at h
     cases hp : pyInt s with
     | error e => rw [hp] at h; simp only [bind_error] at h; split at h <;> cases h
@@ -654,9 +701,9 @@ theorem float_epoch_truncates (b : UInt64) :
     floatTrunc 0xBFE0000000000000 = .fin 0 ∧ floatTrunc 0xBFF8000000000000 = .fin (-1) ∧
     parseIso (.float 0xBFE0000000000000) = .value ⟨1970, 1, 1, 0, 0, 0, 0⟩ ∧
     parseIso (.float 0xBFF8000000000000) = .value ⟨1969, 12, 31, 23, 59, 59, 0⟩ := by
-  have c1 : Gen.Iso.epochTypes.contains "int" = true := by decide
-  have c3 : Gen.Iso.epochTypes.contains "float" = true := by decide
-  have c4 : Gen.Iso.epochTypes.contains "numpy.float64" = true := by decide
+  have c1 : Iso.epochAdmits "int" = true := by decide
+  have c3 : Iso.epochAdmits "float" = true := by decide
+  have c4 : Iso.epochAdmits "numpy.float64" = true := by decide
   have cv := guards_cover_subscripts_and_exceptions.catches
   refine ⟨?_, ?_, by decide, by decide, by decide, by decide⟩
   · intro z hz
@@ -913,25 +960,39 @@ theorem time_cast_value_is_a_time (s : List Char) (H M S us : Nat)
       exact timeFromIso_ok s t ht
     · cases h
 
-/-- **The dispatch in front of the string branch is the one `Iso.body` was written from.**
-`parse_iso` carries no decorator (no cache between the caller and the `try`), takes one argument,
-and before the string branch runs exactly these statements, in this order: bytes are decoded,
-all-digit text becomes an `int`, `numpy.datetime64` is converted, the four epoch types go to
-`fromtimestamp(int(value), utc)`, objects with `to_pydatetime` are delegated, a `datetime` loses its
-microseconds, a `date` gets midnight.  (Normalised source text extracted on this run; the
-behaviour of each line is compared with the model on every run.) -/
+/-- **The dispatch in front of the string branch is the one `Iso.body` describes.**
+`Gen.IsoDispatch.dispatch` is the body of `parse_iso`'s `try`, translated statement by statement from the source on this run
+(`harness/pystmt_dispatch.py`: the re-assigned variables `value` / `input_type`, `if` without `else`, early `return`, the short
+circuit of `and`, the class table of the Unix-seconds branch as it is written, the order of the tests).  On **every** input
+(`Input.num ty n` with `ty` a numeric class) it computes `Iso.body` — the function all other theorems are about: bytes are
+decoded first (an undecodable byte string raises `UnicodeDecodeError` there), all-digit text becomes an `int` *before* the table
+is consulted, the classes of the table go to `fromtimestamp(int(value), utc)`, a `datetime` loses its microseconds, a `date` gets
+midnight, exact `str` goes to the string branch, everything else falls through to `return None`.  `parse_iso` carries no
+decorator (no cache between the caller and the `try`) and takes the one argument. -/
 theorem dispatch_is_the_modelled_one :
-    Gen.Iso.dispatch = [
-      "def parse_iso(value)",
-      "input_type = type(value)",
-      "if isinstance(value, bytes): value = value.decode('utf-8') input_type = str",
-      "if input_type == str and value.isdigit(): value = int(value) input_type = int",
-      "if input_type == numpy.datetime64: value = value.astype(datetime.datetime) input_type = type(value) if input_type is int: value /= 1000000000",
-      "if input_type in (int, numpy.int64, float, numpy.float64): return datetime.datetime.fromtimestamp(int(value), tz=datetime.timezone.utc).replace(tzinfo=None)",
-      "if hasattr(value, 'to_pydatetime'): return value.to_pydatetime()",
-      "if input_type == datetime.datetime: return value.replace(microsecond=0)",
-      "if input_type == datetime.date: return datetime.datetime.combine(value, datetime.time.min)"] := by
-  rfl
+    Gen.IsoDispatch.decorators = [] ∧ Gen.IsoDispatch.signature = "value" ∧
+    ∀ i : Input, i.numericContract → Gen.IsoDispatch.dispatch (.inp i) = Iso.body i := by
+  refine ⟨rfl, rfl, ?_⟩
+  intro i hc
+  cases i with
+  | str s =>
+    cases hd : isDigitStr s <;>
+      simp [Gen.IsoDispatch.dispatch, pyType, pyIsInstanceD, DVal.classes, mro, pyIsDigit, hd, pyTypeIn, pyHasAttr, pyTextBranch, body, strBody,
+        epoch, epochAdmits, Gen.Iso.epochBySubclass, Gen.Iso.epochTypes, pyIntOf, pyFromTimestampUtc, bind, Except.bind]
+  | bytes b =>
+    cases hb : decodeUtf8 b with
+    | none => simp [Gen.IsoDispatch.dispatch, pyType, pyIsInstanceD, DVal.classes, pyDecodeUtf8, hb, body, bind, Except.bind]
+    | some s =>
+      cases hd : isDigitStr s <;>
+      simp [Gen.IsoDispatch.dispatch, pyType, pyIsInstanceD, DVal.classes, mro, pyDecodeUtf8, hb, pyIsDigit, hd, pyTypeIn, pyHasAttr, pyTextBranch, body, strBody,
+        epoch, epochAdmits, Gen.Iso.epochBySubclass, Gen.Iso.epochTypes, pyIntOf, pyFromTimestampUtc, bind, Except.bind]
+  | num ty n =>
+    obtain ⟨h1, h2, h3, h4, h5⟩ := hc
+    simp [Gen.IsoDispatch.dispatch, pyType, pyIsInstanceD, DVal.classes, bytes_not_in_mro ty h1, pyTypeIn, pyHasAttr, body,
+        epoch, epochAdmits, Gen.Iso.epochBySubclass, Gen.Iso.epochTypes, pyIntOf, pyFromTimestampUtc, bind, Except.bind, h2, h3, h4, h5, pure, Except.pure]
+  | _ =>
+    simp [Gen.IsoDispatch.dispatch, pyType, pyIsInstanceD, DVal.classes, mro, pyTypeIn, pyHasAttr, body,
+        epoch, epochAdmits, Gen.Iso.epochBySubclass, Gen.Iso.epochTypes, pyIntOf, pyFromTimestampUtc, pyReplaceMicro0, pyCombineMin, bind, Except.bind, pure, Except.pure]
 
 /-- **Counterexamples on the pinned tree** (`except (ValueError, TypeError)`): the faithful model
 raises — `OverflowError` for `10**30`, `float('inf')` and `'9'*30`, `OSError` for `10**17` — so
